@@ -153,6 +153,15 @@ class P(vlib.Prop):
         callers_gc = sorted(n for n, b in funcs.items() if "doGCandReadMemStats()" in b and n != "doGCandReadMemStats")
         if callers_gc != ["CheckMemLimits"]:
             bad.append("callers of doGCandReadMemStats: expected [CheckMemLimits], found %s" % callers_gc)
+        # the lifecycle calls ignore their context (it is only valid for the call) and the checker loop waits for
+        # exactly two things: a tick and the close of `closed`
+        if not re.search(r"\) Start\(_ context\.Context, _ component\.Host\)", funcs.get("Start", "")):
+            bad.append("MemoryLimiter.Start no longer ignores its context/host parameters (signature changed)")
+        if not re.search(r"\) Shutdown\(context\.Context\)", funcs.get("Shutdown", "")):
+            bad.append("MemoryLimiter.Shutdown no longer ignores its context parameter (signature changed)")
+        cases = re.findall(r"^\s*case\s+(.*?):", funcs.get("Start", ""), re.M)
+        if sorted(cases) != ["<-ml.closed", "<-ml.ticker.C"]:
+            bad.append("the monitoring goroutine's select waits for %s, expected exactly <-ml.ticker.C and <-ml.closed" % cases)
         if "waitGroup.Wait()" not in funcs.get("Shutdown", ""):
             bad.append("Shutdown no longer waits for the monitoring goroutine (waitGroup.Wait)")
         # the fields are unexported and the other two packages do not reach into them (they could not, except by reflect)
